@@ -334,6 +334,21 @@ func ParseBehaviourFile(s string) (Behaviour, error) {
 		if err != nil {
 			return nil, err
 		}
+		// the comment line before "STATE_n ==" names the action: \* <Name line ...>
+		hdr := s[:loc[0]]
+		if i := strings.LastIndex(hdr, "\\* <"); i >= 0 {
+			name := hdr[i+4:]
+			if j := strings.Index(name, " line "); j >= 0 {
+				name = name[:j]
+			}
+			args := ""
+			if j := strings.Index(name, "("); j >= 0 {
+				args = strings.TrimSuffix(name[j+1:], ")")
+				name = name[:j]
+			}
+			st["_action"] = name
+			st["_args"] = args
+		}
 		out = append(out, st)
 	}
 	return out, nil
